@@ -432,7 +432,7 @@ def _nontrivial(case, r):
 def tie(ctx):
     consts = _defaults()
     cases = fixed_cases() + load_corpus()
-    n_mc, n_hl = ctx.scale(450, 8000), ctx.scale(350, 6000)
+    n_mc, n_hl = ctx.scale(450, 6000), ctx.scale(350, 4000)
     for _ in range(n_mc):
         cases.append(gen_mc_case(ctx.rng))
     for _ in range(n_hl):
